@@ -80,15 +80,25 @@ def run(tier):
     # ---- SingleDetect on all-zero / all-one content at every length
     lens = list(range(16, 4097)) if thorough else sorted(set(list(range(16, 200)) + list(range(200, 4097, 16)) + [1279, 1280, 1281, 4096]))
     lens += [10000, 125000]
+    # "every admissible length": powers of two and their neighbourhoods up to 2^20 (counter widths, pooled buffers)
+    for kk in range(13, 21 if thorough else 19):
+        lens += [(1 << kk) - 1, 1 << kk, (1 << kk) + 1, (1 << kk) * 17 // 16, (1 << kk) * 3 // 2]
     sj = []
+    healthy = set()
     for nb in lens:
         for b in (0, 255):
             jid += 1
             sj.append(wf.mk_single(jid, nb, stream={"kind": "const", "byte": b, "len": -1}, policy=rng.choice(["full", "random"]), rseed=jid, tag="single const %d" % b))
+        if nb <= 4096 and rng.random() < 0.25:
+            # the detection is called repeatedly in the field: healthy requests of other sizes in between (call histories)
+            jid += 1
+            sj.append(wf.mk_single(jid, rng.choice([nb + 4144, 4160, 2 * nb + 7]), stream={"kind": "seeded", "seed": rng.randrange(1 << 40), "len": -1}, tag="single healthy"))
+            healthy.add(jid)
+    rng.shuffle(sj)
     rows, crashed = vlib.run_hz_jobs(hz, "workflow", sj, nproc=8)
     if crashed:
         run.violation({"kind": "crash-single"}, {"job": crashed[0]["first_missing"], "stderr": crashed[0]["stderr"][-1000:]})
-    events = [single_trace_event(j, rows[j["id"]], mustreject=True) for j in sj if rows.get(j["id"])]
+    events = [single_trace_event(j, rows[j["id"]], mustreject=j["id"] not in healthy) for j in sj if rows.get(j["id"])]
     acc, rej, gen = vlib.validate_trace("TraceSingle", events, timeout=3000, max_rej=4)
     run.states += acc; run.transitions += gen; run.traces += acc; run.evaluations += len(events)
     sbyid = {j["id"]: j for j in sj}
